@@ -326,11 +326,13 @@ CHECKS = {
         'assumptions': ['KNOWN FINDING: arguments of a variable call recv.^f(args) are parsed but never evaluated', 'goroutine timing at start-up (native sources) is exercised only by the new-process runs'],
     },
     'C14': {
-        'lean_modules': ['Pangaea.Theorems.C14', 'Pangaea.Theorems.C14Store'],
-        'theorem_modules': ['Pangaea.Theorems.C14', 'Pangaea.Theorems.C14Store'],
+        'lean_modules': ['Pangaea.Theorems.C14', 'Pangaea.Theorems.C14Store', 'Pangaea.Theorems.C14Core'],
+        'theorem_modules': ['Pangaea.Theorems.C14', 'Pangaea.Theorems.C14Store', 'Pangaea.Theorems.C14Core'],
         'theorems': ['Pangaea.C14.' + t for t in ['new_is_fresh', 'chain_source_is_copy', 'recur_swaps_only_self', 'recur_other_untouched', 'next_runs_body', 'guarded_yield_stops', 'guarded_yield_yields',
                      'first_yield_wins', 'yield_is_result', 'result_is_yielded', 'chain_stops_at_stopiter', 'chain_passes_other_errors', 'chain_visits_next',
-                     'iterators_keep_identity_and_code', 'next_keeps_identity_and_code']],
+                     'iterators_keep_identity_and_code', 'next_keeps_identity_and_code',
+                     # a chain over any source = successive next steps up to the first exhaustion (sequential specification)
+                     'next_of_iter_value', 'next_of_iter_stop', 'next_of_iter_error', 'list_chain_src', 'list_chain_over_iterator', 'copy_keeps_original']],
         'harness': ['C14'],
         'shards': 14,
         'spec_is_function': True,
